@@ -89,6 +89,9 @@ def run_shard(desc, tier, res):
                     E.apply(fst, root, op)
                 except Exception:  # noqa: BLE001
                     continue
+                from ..fstnav import live_vs_parse
+                if live_vs_parse(root, 'Module'):
+                    continue  # the edit itself left source != tree (unpar()/par(force) misuse, or a C01 defect): C01's business
                 if check(fst, root, src0, [op], cid, g, res):
                     res.nontriv(cid)
         return
@@ -99,10 +102,9 @@ def run_shard(desc, tier, res):
                 B.battery(root, B.GROUPS if variant == 'full' else (variant,))
 
         def on_state(root, pre, hist, cid, c2, variant=variant):
-            try:
-                ast.parse(c2[2])
-            except SyntaxError:
-                return False  # C01's business
+            from ..fstnav import live_vs_parse
+            if live_vs_parse(root, 'Module'):
+                return False  # source != tree after the edit itself (unpar()/par(force) misuse or a C01 defect): C01's business
             ok = check(fst, root, src0, hist, cid + f'/pre={variant}', variant, res)
             if ok and c2[2] != pre[2]:
                 res.nontriv(c2[2], c2[3], variant)
